@@ -27,7 +27,7 @@ def cstr(s):
 class Gen:
     def __init__(self, model, checked=True):
         self.m = model
-        self.pkg = model.sch["package"]
+        self.pkg = model.sch.get("schema_name") or model.sch["package"]
         self.checked = checked
         self.lines = []
         self.uid = 0
@@ -434,6 +434,17 @@ class Gen:
         walk(L)
         return res
 
+    def preorder_data(self, L):
+        res = []
+
+        def walk(x):
+            for d in x.data:
+                res.append((x, d))
+            for g in x.groups:
+                walk(g)
+        walk(L)
+        return res
+
     def has_data_anywhere(self, L):
         return bool(L.data) or any(self.has_data_anywhere(g) for g in L.groups)
 
@@ -516,6 +527,23 @@ class Gen:
             else:
                 w("    o.tok(\"na\");")
             w("}")
+            # ---- size of the first root-level data member of a group-less message from its length prefix alone, and the
+            # data_traits formula of every data member (pre-order over levels) for an arbitrary length
+            w("static void dsize_%d(unsigned char* p, std::size_t n, rt::Out& o) {" % i)
+            w("    auto v0 = sbepp::make_const_view<%s>(p, n); (void)v0;" % view)
+            if L.data and not L.groups:
+                w("    auto d = v0.%s(); o.kv(\"dsize\", sbepp::size_bytes(d)); o.kv(\"n\", static_cast<unsigned long long>(d.size()));" % L.data[0].name)
+            else:
+                w("    o.tok(\"na\");")
+            w("}")
+            w("static void dtsize_%d(std::size_t which, rt::Tokens& tk, rt::Out& o) {" % i)
+            w("    unsigned long long a_ = tk.dec(); (void)a_;")
+            w("    switch(which) {")
+            for di, (lv, d) in enumerate(self.preorder_data(L)):
+                tg = "%s::%s" % (self.level_tag(lv), d.name)
+                w("    case %d: { typedef sbepp::data_traits<%s> DT_; o.kv(\"trait\", DT_::size_bytes(static_cast<DT_::length_type::value_type>(a_))); break; }" % (di, tg))
+            w("    default: o.err(\"bad data index\"); }")
+            w("}")
             # ---- sizes
             w("static void sizes_%d(unsigned char* p, std::size_t n, rt::Out& o) {" % i)
             w("    auto v0 = sbepp::make_const_view<%s>(p, n);" % view)
@@ -597,6 +625,16 @@ class Gen:
         w("        default: return false; }")
         w("        if(!gb.canary_ok(p)) o.err(\"write before the buffer\");")
         w("        o.tok(\"BUF \" + rt::Out::hexbytes(p, img.size())); return true; }")
+        w("    if(cmd == \"dsize\") { std::vector<unsigned char> img = tk.bytes(); unsigned char* p = gb.place(img.data(), img.size(), true);")
+        w("        switch(mi) {")
+        for i in range(len(m.messages)):
+            w("        case %d: dsize_%d(p, img.size(), o); return true;" % (i, i))
+        w("        default: return false; } }")
+        w("    if(cmd == \"dtsize\") { std::size_t which = static_cast<std::size_t>(tk.dec());")
+        w("        switch(mi) {")
+        for i in range(len(m.messages)):
+            w("        case %d: dtsize_%d(which, tk, o); return true;" % (i, i))
+        w("        default: return false; } }")
         w("    if(cmd == \"tsize\") { std::size_t which = static_cast<std::size_t>(tk.dec());")
         w("        switch(mi) {")
         for i in range(len(m.messages)):
